@@ -111,6 +111,7 @@ package events
 
 //@ func (e *eventRingBuffer) updateLowestID(beginSize, endSize uint64)
 //@   props C20
+//@   mode invhelper=Resize
 //@   requires e != nil && e.lowestId <= e.id
 //@   assigns e.lowestId
 //@   ensures e.lowestId == (beginSize >= endSize && e.id - old(e.lowestId) > endSize ? e.id - endSize : old(e.lowestId))
